@@ -22,7 +22,7 @@ def fhex(x):
 def run(c):
     out = {"oracle": []}
     sfx = c["suffix"]
-    name = "r_eff"
+    name = c.get("name", "r_eff")
     if c.get("sky"):
         sp = FlatSkyPrior(sky_guess=c["loc"], sky_guess_err=c["scale"], suffix=sfx)
         key = "sky_back" + sfx
